@@ -31,9 +31,10 @@ def plan(tier, seed):
     return [{'n': 260, 'gdb_shim': True, 'tui': 2500} for _ in range(56)] + [{'mode': 'tierb', 'n': 25, 'gdb_shim': True} for _ in range(8)]
 
 
-def ws_variant(rng, text):
+def ws_variant(rng, text, nm='wl'):
     """the white space between a command word and its argument, and around the line, is any white space"""
-    if ' ' in text and rng.random() < 0.3:
+    if ' ' in text and nm in ('wl', 'w') and text[:text.index(' ')].isalpha() and rng.random() < 0.3:
+        # only the gap after the subcommand word: with `wlbreakpoint <matcher>` the first space belongs to the matcher, possibly to a quoted string in it
         text = text.replace(' ', rng.choice(['\t', '  ', ' \t', '\x0c', '\t\t']), 1)
     if rng.random() < 0.1:
         text = rng.choice(['', ' ', '\t']) + text + rng.choice([' ', '\t', '  '])
@@ -42,7 +43,7 @@ def ws_variant(rng, text):
 
 def gen_user_command(rng, g, names, appids=()):
     nm, arg, kind, payload = gen_user_command_(rng, g, names, appids)
-    return nm, ws_variant(rng, arg), kind, payload
+    return nm, ws_variant(rng, arg, nm), kind, payload
 
 
 def gen_user_command_(rng, g, names, appids=()):
